@@ -24,6 +24,8 @@ struct Ctx {
     version: String,
     dummy_hash: [u8; 32],
     is_dummy: bool,
+    /// the interchain token: its asset-contract style set_admin is a second way to hand the ownership over
+    is_token: bool,
 }
 
 #[derive(Clone, Hash)]
@@ -60,6 +62,8 @@ enum Act {
     Upgrade { known_hash: bool, by: Who },
     Migrate { well_typed: bool, by: Who },
     TransferOwnership { to: usize, by: Who },
+    /// the token's set_admin(new_admin): only the current owner may hand the ownership over
+    SetAdmin { to: usize, by: Who },
     /// version: 0 = same as current, 1 = the version the new code reports, 2.. = wrong ones
     /// (9.9.9, 0.1.5, 0.10.0, 0.2);
     /// data: 0 = well-typed, 1 = ill-typed, 2 = empty argument list
@@ -154,7 +158,7 @@ impl Scenario for C15 {
             other => panic!("version() failed: {:?}", other),
         };
         (
-            Ctx { w, target, upgrader, p, version, dummy_hash, is_dummy: c == 5 },
+            Ctx { w, target, upgrader, p, version, dummy_hash, is_dummy: c == 5, is_token: c == 4 },
             Model { advances: 0, swapped: false, owner: 0, window: false, closed_hash: [None, None] },
         )
     }
@@ -184,6 +188,9 @@ impl Scenario for C15 {
         v.push(Act::Migrate { well_typed: false, by: Who::Owner });
         for (to, by) in [(1usize, Who::Owner), (0, Who::Owner), (1, Who::Other), (2, Who::Stranger), (1, Who::Nobody)] {
             v.push(Act::TransferOwnership { to, by });
+            if ctx.is_token {
+                v.push(Act::SetAdmin { to, by });
+            }
         }
         for version in 0..6u8 {
             for cover in [Cover::Both, Cover::UpgradeOnly, Cover::MigrateOnly, Cover::Nobody, Cover::WrongPrincipal] {
@@ -279,6 +286,23 @@ impl Scenario for C15 {
                     if !call.ok {
                         out.expect(h0 == w.state_hash(), "rejected-but-changed-state", || format!("{:?}", a));
                     }
+                }
+            }
+            Act::SetAdmin { to, by } => {
+                out.kind = "transfer_ownership";
+                // `Other` and `Stranger` sign as the would-be new admin themselves
+                let call = w.call(&ctx.target, "set_admin", &[ctx.p[*to].to_val()], Auth::By(&self.who(ctx, m, *by)));
+                let want = *by == Who::Owner;
+                out.accepted = call.ok;
+                out.expect(call.ok == want, "ownership.outcome", || format!("{:?}: ok={} ({}), model {}", a, call.ok, call.err, want));
+                if call.ok && *to < 2 {
+                    if *to != m.owner {
+                        m.closed_hash = [None, None];
+                    }
+                    m.owner = *to;
+                }
+                if !call.ok {
+                    out.expect(h0 == w.state_hash(), "rejected-but-changed-state", || format!("{:?}", a));
                 }
             }
             Act::Upgrader { version, cover, data, real_code } => {
